@@ -327,3 +327,58 @@ def register(reg):
       "rl:RefList:T,o:Ref:U), U(b,t:Ref:T,tl:RefList:T); no formulas / two-way references; explicit ids in bundles are fresh "
       "(collisions are C27). Floats / strings in reference columns are alt-text, never ids (checked once per run).",
       "Lean 4 theorems by induction over the request / value lists + differential correspondence through a live engine + naive reference interpreter as direct oracle")
+
+  reg("C39", "proof",
+      "useractions.RenameChoices is modelled with the pieces it runs through (ChoiceColumn.rename_choices over every slot of "
+      "_data, ChoiceListColumn._rename_cell_choice, Engine.trim_update_action, the row assertion of docactions.BulkUpdateRecord, "
+      "the rewrite of the column's _grist_Filters records over the parsed JSON) in GristModel/Choices.lean. Proved for ALL slot "
+      "arrays, row sets, rename maps and filter tables, whenever the action succeeds: rename_cells_exact / rename_cells_clauses "
+      "(the column after the emitted update = every Choice cell equal to a key replaced by its image, every element of every "
+      "ChoiceList cell likewise, looked up once in the original map; None, alt-text and wrong-type cells unchanged), rename_swap "
+      "({a:b, b:a} exchanges the two choices), rename_frame (only rows of the table, each once, only rows whose value changes; "
+      "formula columns get no cell update), rename_filters_exact (filters of the column in the documented included/excluded->array "
+      "shape: same keys and order, string entries replaced simultaneously, other entries kept, rewritten only if the parsed value "
+      "changes), rename_filters_frame (filters of other columns and empty filters never touched). 'With ANY mapping' is false of "
+      "the code: rename_total_partial proves success for maps that do not rename '' (Choice data columns) and list-shaped "
+      "filters; the negations are proved in general (rename_empty_key_fails: every map with key '' -> non-empty fails with the "
+      "row assertion because slot 0 holds ''; rename_range_filter_fails: a saved range filter {\"min\": 1} makes every rename "
+      "fail) with concrete witnesses that the check replays on the real engine (recorded in known_findings.json). Only "
+      "differentially validated: that the model equals the code (emitted cell update, emitted filter update, error class, on "
+      "documents driven through a live engine) and, by a naive reference on full snapshots, that nothing else in the document "
+      "changes and dependent formulas hold the recomputed value.",
+      "rename maps str->str; filter text <-> JSON (json.loads/json.dumps) is a parameter; filters that are invalid JSON / "
+      "non-objects / hold a string under a key are outside the property (correspondence only); not a summary table, no trigger "
+      "formulas; record ids of _grist_Filters distinct (theorem hypothesis). Three recorded findings.",
+      "Lean 4 theorems (induction over the slot array / filter table) + differential correspondence through a live engine + snapshot oracle")
+
+  reg("C41", "proof",
+      "Engine.fetch_table (query preparation with the set/list fallback, the row scan with the swallowed TypeError, "
+      "RowIDs.__iter__, raw_get, the formulas/private/id/virtual column selection) and Python's ==, hash and `in` on "
+      "None/bool/int/float/str/list/tuple (nested) are modelled in GristModel/FetchQuery.lean. Proved for ALL tables, flags and "
+      "queries: pyEq_symm, pyEq_hashable (equal values are both hashable or both not), cellIn_spec (the try/except dance computes "
+      "plain `any(stored == v)` membership in every case), fetch_query_exact (returned rows = the table's rows, strictly "
+      "increasing, each once, whose stored value in EVERY queried column is == to a requested value), fetch_query_keyerror "
+      "(an unknown column is the only failure), fetch_query_empty (None / {} returns every row), fetch_columns_flags (returned "
+      "columns = table order filtered by formulas/private, never id, never '#...'; one stored value per returned row). Only "
+      "differentially validated: that the model equals the code (row ids, column ids and order, every returned value, KeyError) "
+      "on live-engine documents incl. metadata tables with private columns, lookup and summary helper columns; the clauses are "
+      "re-evaluated on the real output by a naive scan with Python's own ==.",
+      "values None/bool/int/finite float/str/list/tuple (no NaN, dicts, dates) in queried columns and requested values; query "
+      "values are lists; equal builtin values hash equally (Python invariant, used to read set membership as ==).",
+      "Lean 4 theorems (mutual induction over nested values, induction over the query) + differential correspondence through a live engine + naive-scan oracle")
+
+  reg("C34", "proof",
+      "moment.py Zone/TzInfo/ts_to_dt/dt_to_ts/date_to_ts/ts_to_date are modelled over integer milliseconds "
+      "(bisect_right as the real binary search, offset_untils, the ambiguity test with favor_offset) and CPython's "
+      "_ymd2ord/_ord2ymd. Proved for every zone record satisfying ZoneWF and every integer instant / wall clock value: "
+      "ts_roundtrip (dt_to_ts(ts_to_dt(ts)) = ts), local_offset_adjacent (+ wall_roundtrip, local_offset_in_use), "
+      "date_roundtrip_utc and civil_days_bijection (all years), date_roundtrip_zone_partial; ZoneWF is discharged for "
+      "every record of the current tzdata.data by generated `decide +kernel` obligations (all_bundled_zones_wf, "
+      "bundled_names_wf, bundled_zones_roundtrip). The zone-aware date round trip is REFUTED (date_roundtrip_zone_fails) "
+      "and the witness is replayed on the real code (known finding). Differentially validated only: that the model is "
+      "the code (all bundled names x every transition in thorough, synthetic and malformed records), float seconds <-> "
+      "integer ms, datetime/timedelta arithmetic.",
+      "integer-second timestamps over years 2..9998, millisecond resolution for |ts| < 2**32 s; float microsecond "
+      "rounding out of scope; bundled untils are integral ms and offsets whole seconds (asserted by the translator on "
+      "every run); lean/Generated/Zones*.lean regenerated from the repo's current tzdata.data by gx.translate.gen_zones.",
+      "Lean 4 theorems over a zone record + generated per-record kernel-decided obligations + differential correspondence")
